@@ -110,8 +110,7 @@ func dataPlane(kind string) bool {
 }
 
 func c01canonName(s string) string {
-	c := &fsx.Ctl{Root: "/"}
-	return c.Canon(s)
+	return fsx.CanonName(s)
 }
 
 // c01judge applies the oracle to one faulted execution and records violations.
